@@ -112,6 +112,8 @@ def run_api_op(spec):
             try:
                 res = asyncio.run(go())
                 out = {"result": norm(res)}
+                if hasattr(res, "successful"):
+                    out["successful"] = bool(res.successful)
             except Exception as e:  # noqa: BLE001
                 out = exc_name(e)
     finally:
@@ -410,4 +412,62 @@ def o_c06(spec, obs):
         return False, "unknown model warned"
     if not obs["exception"] and not obs["devices"] and not obs["warnings"]:
         return True, "genuine broadcast ignored"
+    return False, "ok"
+
+
+# ------------------------------------------------------------------------------- C08 / C09
+from spec import replies as SR  # noqa: E402
+
+
+@oracle("C08")
+def o_c08(spec, obs):
+    op = spec["op"]
+    kind = {"get_state": "state1", "get_shutter_state": "shutter", "get_breeze_state": "thermostat"}[op]
+    d = bytes.fromhex(spec["replies"][1])
+    if len(d) < SR.MIN_LEN[kind]:
+        return False, "reply shorter than the layout (outside C08)"
+    r = SR.decode(O, d, kind)
+    if not SR.wellformed(O, d, kind, r):
+        return False, "reply not well-formed (outside C08)"
+    if "exception" in obs:
+        return True, "well-formed reply raised %s" % obs["exception"]
+    got = obs["result"]
+    if kind == "state1":
+        exp = {"state": "DeviceState.ON" if r["state"] == 1 else "DeviceState.OFF", "time_left": _iso(r["left_s"]),
+               "time_on": _iso(r["on_s"]), "auto_shutdown": _iso(r["auto_s"]), "power_consumption": r["watts"],
+               "electric_current": round(r["watts"] / 220.0, 1)}
+    elif kind == "shutter":
+        exp = {"position": r["position"], "direction": "ShutterDirection." + SR.DIRECTIONS[r["direction"]]}
+    else:
+        exp = {"state": "DeviceState.OFF" if r["state"] == 0 else "DeviceState.ON",
+               "mode": "ThermostatMode." + SR.MODES.get(r["mode"], "COOL"),
+               "fan_level": "ThermostatFanLevel." + SR.FANS.get(r["fan"], "LOW"),
+               "swing": "ThermostatSwing." + ("OFF" if r["swing"] == 0 else "ON"),
+               "temperature": r["temp10"] / 10, "target_temperature": r["target"],
+               "remote_id": bytes(r["remote"]).decode().rstrip("\x00")}
+    for k, v in exp.items():
+        if got.get(k) != v:
+            return True, "field %s = %r, device reported %r" % (k, got.get(k), v)
+    frames = [bytes.fromhex(f) for f in obs["frames"]]
+    if len(frames) > 1 and frames[1][8:12] != bytes.fromhex(spec["replies"][0])[8:12]:
+        return True, "session bytes in the command frame differ from login reply bytes 8..11"
+    return False, "ok"
+
+
+@oracle("C09")
+def o_c09(spec, obs):
+    op = spec["op"]
+    replies = [bytes.fromhex(r) for r in spec["replies"]]
+    state_ops = ("get_state", "get_breeze_state", "get_shutter_state")
+    if op in state_ops and "exception" in obs and obs["exception"] != "RuntimeError":
+        return True, "%s raised %s (%s)" % (op, obs["exception"], obs.get("msg"))
+    if len(replies[0]) == 0 and op in state_ops + ("stop", "set_position", "control_breeze_device"):
+        if obs.get("exception") != "RuntimeError" or len(obs["frames"]) != 1:
+            return True, "empty login reply: exception=%r, frames=%d" % (obs.get("exception"), len(obs["frames"]))
+    if "result" in obs and isinstance(obs["result"], dict) and obs["result"].get("__class__") == "SwitcherBaseResponse":
+        last = replies[len(obs["frames"]) - 1] if len(obs["frames"]) - 1 < len(replies) else b""
+        # `successful` is a property: recompute from the object's reply and compare with what the caller sees
+        succ = obs.get("successful")
+        if succ is not None and succ != (len(last) > 0):
+            return True, "successful=%r for a %d-byte reply" % (succ, len(last))
     return False, "ok"
